@@ -23,9 +23,13 @@ commutative semiring of scalars):
   `c16_beta_zero_initializes`: with `beta = 0` every element is written, whatever the prior
   contents (even uninitialised); `c16_beta_nonzero`: the closed form for initialised outputs.
 * `c16_block_sizes_ok`: the block sizes the code computes (`col_block_size`, `row_block_size`,
-  `depth_block_size` with the constants regenerated from the source) satisfy the hypotheses;
-  `c16_gemmImpl_general`: `gemm_impl`'s general path end to end.
+  `depth_block_size` with the constants regenerated from the source) satisfy the hypotheses.
+  (The glue `gemmPath`/`gemmImpl` that selects the branch and plugs these block sizes into
+  `schedule` is executed by the driver and compared with the real code, not restated as a theorem.)
 * zero-depth branch `c16_zero_depth`.
+
+Not proved (modelled and compared only): the `gemv` fast path (`gemvSchedule`/`runGemv`) and the
+packing slot order (`packASlots`/`packBSlots`).
 
 **Partial**: the micro-kernels (SIMD code, their use of the packed panels), floating-point
 rounding, the thread schedule (the model is the sequential order; per-tile order is what the
